@@ -339,6 +339,19 @@ pub fn run(item: &Value) -> Value {
         "classify_json" => crate::api_gen::classify_json(ty, &item["json"]).unwrap_or(json!({"error": "unknown message type"})),
         "validate_json" => crate::api_gen::validate_json(ty, &item["json"]).unwrap_or(json!({"error": "unknown message type"})),
         "full" => crate::api_gen::full(ty, item["text"].as_str().unwrap_or("")).unwrap_or(json!({"error": "unknown message type"})),
+        "block4_fields" => {
+            let text = item["text"].as_str().unwrap_or("");
+            match swift_mt_message::parser::parse_block4_fields(text) {
+                Ok(m) => {
+                    let mut o = serde_json::Map::new();
+                    for (k, v) in m {
+                        o.insert(k, json!(v.iter().map(|(s, p)| json!([s, p])).collect::<Vec<_>>()));
+                    }
+                    json!({"ok": true, "fields": o})
+                }
+                Err(e) => json!({"ok": false, "display": e.to_string()}),
+            }
+        }
         "extract_block" => {
             let text = item["text"].as_str().unwrap_or("");
             let k = item["block"].as_u64().unwrap_or(0) as u8;
